@@ -281,7 +281,34 @@ impl C14 {
             }
             a.mask = *mk_;
             a.query(&g, rep);
+            // removals may also come after a mask has been set and in the middle of an iteration: what has
+            // not been yielded yet and is not excluded must still come, under this mask or a later one
+            let mut late_removals = if rng.chance(1, 4) { 1 + rng.below(2) } else { 0 };
+            let mut at_step = if rng.chance(1, 2) { 0 } else { 1 + rng.below(6) };
+            let mut step = 0usize;
             loop {
+                if late_removals > 0 && step == at_step && !legal.is_empty() {
+                    late_removals -= 1;
+                    at_step += 1 + rng.below(4);
+                    a.settle_claims(rep);
+                    if rng.chance(2, 3) {
+                        let m = *rng.pick(&legal);
+                        let r = g.remove_move(lib_move(m));
+                        rep.count("op_remove_move");
+                        rep.count(if step == 0 { "ev_removals_after_mask_before_iteration" } else { "ev_removals_mid_iteration" });
+                        a.trace.push(format!("remove_move({})={}", m.uci(), r));
+                        a.removed_pairs.push((m.from, m.to));
+                        a.removed_exact.push(m);
+                    } else {
+                        let mask = 1u64 << rng.pick(&legal).to | if rng.chance(1, 3) { rng.next() & rng.next() & rng.next() } else { 0 };
+                        g.remove_mask(BitBoard(mask));
+                        rep.count("op_remove_mask");
+                        rep.count(if step == 0 { "ev_removals_after_mask_before_iteration" } else { "ev_removals_mid_iteration" });
+                        a.trace.push(format!("remove_mask({:x})", mask));
+                        a.removed_masks |= mask;
+                    }
+                    a.query(&g, rep);
+                }
                 let r = g.next();
                 let done = r.is_none();
                 a.on_next(r, rep);
@@ -289,6 +316,7 @@ impl C14 {
                     break;
                 }
                 a.query(&g, rep);
+                step += 1;
             }
             if a.dead {
                 break;
@@ -352,6 +380,71 @@ fn adaptor_equivalences(b: &Board, rep: &mut Report, rng: &mut Rng) {
     let tail: Vec<ChessMove> = it.collect();
     if head.iter().chain(tail.iter()).cloned().collect::<Vec<_>>() != base || hint != (tail.len(), Some(tail.len())) {
         rep.violation("C14/adaptor/take-then-rest", format!("size_hint {:?}, {} + {} moves, want {} ; fen={}", hint, head.len(), tail.len(), len, fen()));
+    }
+    // a generator that has already handed out some moves - possibly one to three of a promotion group -
+    // consumed the rest of the way by each kind of consumer (external, internal / fold-based, positional)
+    if len > 0 {
+        let firsts: Vec<usize> = base.iter().enumerate().filter(|(_, m)| m.get_promotion() == Some(chess::Piece::Queen)).map(|(i, _)| i).collect();
+        let mut js: Vec<usize> = vec![1, rng.below(len) + 1];
+        if !firsts.is_empty() {
+            let f = *rng.pick(&firsts);
+            js.push(f + 1 + rng.below(3));
+            js.push(f + 1);
+        }
+        for j in js.into_iter().filter(|j| *j <= len) {
+            let fresh = |j: usize| {
+                let mut it = MoveGen::new_legal(b);
+                for _ in 0..j {
+                    it.next();
+                }
+                it
+            };
+            let want: Vec<ChessMove> = base[j..].to_vec();
+            rep.evaluations += 7;
+            rep.count("ev_adaptor_rounds_after_partial_consumption");
+            let c: Vec<ChessMove> = fresh(j).collect();
+            let f: Vec<ChessMove> = fresh(j).fold(vec![], |mut v, m| {
+                v.push(m);
+                v
+            });
+            let mut fe: Vec<ChessMove> = vec![];
+            fresh(j).for_each(|m| fe.push(m));
+            let hs: std::collections::HashSet<ChessMove> = fresh(j).collect();
+            let claimed = fresh(j).len();
+            let sig = |what: &str, got: usize| format!("after {} next() calls {} gives {} moves, plain iteration {} ; fen={}", j, what, got, want.len(), fen());
+            if c != want {
+                rep.violation("C14/adaptor/partial/collect", sig("collect()", c.len()));
+            }
+            if f != want {
+                rep.violation("C14/adaptor/partial/fold", sig("fold()", f.len()));
+            }
+            if fe != want {
+                rep.violation("C14/adaptor/partial/for_each", sig("for_each()", fe.len()));
+            }
+            if fresh(j).count() != want.len() {
+                rep.violation("C14/adaptor/partial/count", sig("count()", fresh(j).count()));
+            }
+            if hs.len() != want.len() || want.iter().any(|m| !hs.contains(m)) {
+                rep.violation("C14/adaptor/partial/collect-set", sig("collect::<HashSet>()", hs.len()));
+            }
+            if claimed != want.len() {
+                rep.violation("C14/adaptor/partial/len", sig("len()", claimed));
+            }
+            if fresh(j).last() != want.last().cloned() || fresh(j).max_by_key(|m| (m.get_dest().to_index(), m.get_source().to_index())) != want.iter().cloned().max_by_key(|m| (m.get_dest().to_index(), m.get_source().to_index())) {
+                rep.violation("C14/adaptor/partial/last-or-max", sig("last()/max_by_key()", 0));
+            }
+            for k in [0usize, 1, 2, 3, 4, want.len().saturating_sub(1), want.len()].iter() {
+                let mut it = fresh(j);
+                let got = it.nth(*k);
+                let after = it.len();
+                let rest: Vec<ChessMove> = it.collect();
+                let want_rest: Vec<ChessMove> = if *k < want.len() { want[*k + 1..].to_vec() } else { vec![] };
+                rep.evaluations += 1;
+                if got != want.get(*k).cloned() || rest != want_rest || after != want_rest.len() {
+                    rep.violation("C14/adaptor/partial/nth", format!("after {} next() calls nth({}) = {:?}, then len() {} and {} more moves; plain iteration gives {:?} and {} more ; fen={}", j, k, got, after, rest.len(), want.get(*k), want_rest.len(), fen()));
+                }
+            }
+        }
     }
     // the same under a mask
     if len > 0 {
